@@ -1,77 +1,51 @@
-import GbVerif.Model.JitCycles
+import GbVerif.Model.JitPaths
 /-
 C01 (program counter bookkeeping of translated code): r13 holds the guest PC inside a translated block.  For an
 instruction that does not end its block, the emitted code may change r13 only through `add r13, imm8` — or by popping
 back the value it pushed itself (the POP rr templates save and restore r13 around their helper call) — and along every
-path through the code the immediates must add up to the instruction's length.  Read off the emitted code like
-`JitCycles.pathSums` reads the cycle charges off `add r15, imm8`, with a symbolic host stack for the save/restore.
+path through the code the immediates must add up to the instruction's length.  Read off the emitted code by the generic
+path walk (`JitPaths.paths`) with the advance so far and a symbolic host stack for the save/restore as abstract state.
 The called bus helpers are Rust `extern "sysv64"` functions: r13 is callee-saved (the same ABI assumption as in X86Wf).
+Soundness for executions of the x86 model: `Proofs/X86Ip.lean`.
 -/
 namespace GbVerif.JitIp
-open GbVerif.X86 GbVerif.JitCycles
+open GbVerif.X86 GbVerif.JitCycles GbVerif.JitPaths
 
-/-- does the instruction write r13 in any way other than `add r13, imm8` and `pop r13`? -/
+/-- does the instruction write r13 in any way other than `add r13, imm8` and `pop`? -/
 def writesR13Otherwise : Instr → Bool
   | .aluI .add .q 13 [_] true => false
-  | .aluI op _ 13 _ _ => op != .cmp
-  | .alu op _ 13 _ => op != .cmp
-  | .alu8 op (.lo 13) _ => op != .cmp
-  | .alu8i op (.lo 13) _ => op != .cmp
-  | .not8 (.lo 13) | .incdec8 _ (.lo 13) | .incdec16 _ 13 | .sh8 _ (.lo 13) _ | .sh32 _ 13 _ => true
-  | .mov8 (.lo 13) _ | .mov8i (.lo 13) _ | .mov _ 13 _ | .movi16 13 _ | .movabs 13 _ | .load _ 13 _ _ | .sete (.lo 13) => true
-  | _ => false
+  | .pop _ => false
+  | ins => destReg ins == some 13
 
-/-- all PC advances over the paths from instruction `i` to the end of the code, going forward with the advance so far
-(`acc`) and the symbolic host stack (`(register tag, advance when pushed)`, flags = tag 100); `none` on a malformed jump,
-any other write to r13, a `pop r13` that does not take back what `push r13` saved, or a store into the slot holding r13 -/
-def pathSums (code : List (Nat × Instr)) (endOff : Nat) : Nat → Nat → Nat → List (Nat × Nat) → Option (List Nat)
-  | _, 0, _, _ => none
-  | i, fuel+1, acc, stack =>
-    match code[i]? with
-    | none => if i == code.length then some [acc] else none
-    | some (_, ins) =>
-      let nextOff := match code[i+1]? with | some (o, _) => o | none => endOff
-      if writesR13Otherwise ins then none else
-      match ins with
-      | .jcc _ rel =>
-        if rel ≥ 128 then none else
-        match indexOf code endOff (nextOff + rel) with
-        | some j => if j ≤ i then none else
-          match pathSums code endOff (i+1) fuel acc stack, pathSums code endOff j fuel acc stack with
-          | some a, some b => some (a ++ b)
-          | _, _ => none
-        | none => none
-      | .jmp rel =>
-        if rel ≥ 128 then none else
-        match indexOf code endOff (nextOff + rel) with
-        | some j => if j ≤ i then none else pathSums code endOff j fuel acc stack
-        | none => none
-      | .aluI .add .q 13 [n] true => if n ≥ 128 then none else pathSums code endOff (i+1) fuel (acc + n) stack
-      | .push r => pathSums code endOff (i+1) fuel acc ((r, acc) :: stack)
-      | .pushf => pathSums code endOff (i+1) fuel acc ((100, 0) :: stack)
-      | .pop r =>
-        match stack with
-        | (r', a) :: rest =>
-          if r == 13 then (if r' == 13 then pathSums code endOff (i+1) fuel a rest else none)
-          else pathSums code endOff (i+1) fuel acc rest
-        | [] => none
-      | .popf => match stack with | _ :: rest => pathSums code endOff (i+1) fuel acc rest | [] => none
-      | .store _ 4 d _ =>
-        match stack[d / 8]? with
-        | some (13, _) => none
-        | some _ => pathSums code endOff (i+1) fuel acc stack
-        | none => none
-      | .store8 4 d _ =>
-        match stack[d / 8]? with
-        | some (13, _) => none
-        | some _ => pathSums code endOff (i+1) fuel acc stack
-        | none => none
-      | _ => pathSums code endOff (i+1) fuel acc stack
+/-- abstract state: the advance so far and the symbolic host stack (`(register tag, advance when pushed)`, flags = tag 100) -/
+abbrev IpSt := Nat × List (Nat × Nat)
+
+/-- transfer function; `none` on any other write to r13, a `pop r13` that does not take back what `push r13` saved, or a
+store into the slot holding r13 (or outside the slots this code pushed) -/
+def trIp (ins : Instr) (a : IpSt) : Option IpSt :=
+  if writesR13Otherwise ins then none else
+  match ins with
+  | .aluI .add .q 13 [n] true => if n ≥ 128 then none else some (a.1 + n, a.2)
+  | .push r => some (a.1, (r, a.1) :: a.2)
+  | .pushf => some (a.1, (100, 0) :: a.2)
+  | .pop r =>
+    match a.2 with
+    | (r', x) :: rest => if r == 13 then (if r' == 13 then some (x, rest) else none) else some (a.1, rest)
+    | [] => none
+  | .popf => match a.2 with | _ :: rest => some (a.1, rest) | [] => none
+  | .store _ b d _ =>
+    if b != 4 then none else
+    match a.2[d / 8]? with
+    | some (r', _) => if r' == 13 then none else some a
+    | none => none
+  | .store8 b d _ =>
+    if b != 4 then none else
+    match a.2[d / 8]? with
+    | some (r', _) => if r' == 13 then none else some a
+    | none => none
+  | _ => some a
 
 /-- the set of PC advances of the translated instruction with these tokens -/
-def jitIp (tokens : List Nat) : Option (List Nat) :=
-  match decodeCode tokens with
-  | none => none
-  | some code => (pathSums code (bytesOf tokens) 0 (code.length + 2) 0 []).map norm
+def jitIp (tokens : List Nat) : Option (List Nat) := analyse trIp (0, []) (fun a => some a.1) tokens
 
 end GbVerif.JitIp
